@@ -12,4 +12,12 @@ PROPS = {
         assumptions=["Go slice capacity after an append-reallocation is not modelled: histories whose result depends on it are cut at that step (RUnknown)",
                      "typed-array blob (indexeddb/idbblob, js/wasm) is not covered by this check's theorems"],
     ),
+    "C01": dict(
+        imports="Base.Path KV.Types KV.FS KV.Handle KV.Run KV.Corr", check="C01_check", ctype="kv_case",
+        show="run kv_init (fst c)", n=dict(quick=400, thorough=8000), chunk=100,
+        rule="state-aware random namespace histories (8..30 ops over names a,b,ab to depth 3, full flag product); "
+             "distinct = distinct (ops, observations) term; all cases non-trivial (>= 8 ops)",
+        level_text="TODO", level_note="TODO",
+        assumptions=[],
+    ),
 }
